@@ -272,6 +272,7 @@ void reset_switch_output(const NodeView &view, DateTime evaluation_time) {
     static_cast<void>(mutation.move_value_from(std::move(empty)));
     return;
   }
+  if (!output.valid()) { return; }
   static_cast<void>(output.data_view().clear_collection(evaluation_time));
 }
 
